@@ -29,4 +29,31 @@ MUTANTS = [
          old='            for e in s:\n                self.add(e)\n',
          new='            old = list(self.impl.keys())\n            try:\n                for e in s:\n                    self.add(e)\n'
              '            except Exception:\n                self.impl.clear()\n                for e in old[:-1]:\n                    self.impl[e] = None\n                raise\n'),
+    # ------------------------------------------------------------------ C25
+    dict(id="c25-get-returns-stored-object", prop="C25", file="data_algebra/eval_cache.py", tests=["test_eval_cache.py"],
+         old='        return res.copy()\n', new='        return res\n'),
+    dict(id="c25-store-keeps-reference", prop="C25", file="data_algebra/eval_cache.py", tests=["test_eval_cache.py"],
+         old='        self.result_cache[op_key] = res.copy()\n', new='        self.result_cache[op_key] = res\n'),
+    dict(id="c25-hash-ignores-row-order", prop="C25", file="data_algebra/eval_cache.py", tests=["test_eval_cache.py"],
+         old='        .pd.util.hash_pandas_object(d)\n        .values\n',
+         new='        .pd.util.hash_pandas_object(d, index=False)\n        .sort_values().values\n'),
+    dict(id="c25-key-omits-dialect", prop="C25", file="data_algebra/eval_cache.py", tests=[],
+         old='        db_model_name=str(db_model),\n', new='        db_model_name="db",\n'),
+    dict(id="c25-key-omits-column-names", prop="C25", file="data_algebra/eval_cache.py", tests=["test_eval_cache.py"],
+         old='    return f"{d.shape}_{list(d.columns)}_{hash_str}"\n', new='    return f"{d.shape}_{hash_str}"\n'),
+    dict(id="c25-hash-memo-in-attrs", prop="C25", file="data_algebra/eval_cache.py", tests=["test_eval_cache.py"],
+         edits=[('    data_algebra.data_model.default_data_model().is_appropriate_data_instance(d)\n    hash_str',
+                 '    data_algebra.data_model.default_data_model().is_appropriate_data_instance(d)\n'
+                 '    if "_da_hash" in d.attrs:\n        return d.attrs["_da_hash"]\n    hash_str'),
+                ('    return f"{d.shape}_{list(d.columns)}_{hash_str}"\n',
+                 '    d.attrs["_da_hash"] = f"{d.shape}_{list(d.columns)}_{hash_str}"\n    return d.attrs["_da_hash"]\n')]),
+    dict(id="c25-store-never-overwrites", prop="C25", file="data_algebra/eval_cache.py", tests=["test_eval_cache.py"],
+         old='            if previous.equals(res):\n                return\n', new='            return\n'),
+    dict(id="c25-key-strips-sql", prop="C25", file="data_algebra/eval_cache.py", tests=["test_eval_cache.py"],
+         old='        sql=sql,\n        dat_map_list', new='        sql=sql.strip(),\n        dat_map_list'),
+    dict(id="c25-key-ignores-table-names", prop="C25", file="data_algebra/eval_cache.py", tests=["test_eval_cache.py"],
+         old='tuple([(k, hash_data_frame(data_map[k])) for k in data_map_keys])',
+         new='tuple([("t", hash_data_frame(data_map[k])) for k in data_map_keys])'),
+    dict(id="c25-hash-first-column-only", prop="C25", file="data_algebra/eval_cache.py", tests=["test_eval_cache.py"],
+         old='        .pd.util.hash_pandas_object(d)\n', new='        .pd.util.hash_pandas_object(d.iloc[:, :1] if d.shape[1] > 1 else d)\n'),
 ]
